@@ -1,5 +1,5 @@
 \* The intended counter semantics (the counter of a round IS the number of its transactions): CountExact holds and
-\* a fair health check completes every round exactly (MC_SharderFin_live_intended.cfg).
+\* a fair health check completes every round exactly (MC_SharderFin_live_intended.cfg, liveness).
 SPECIFICATION Spec
 CONSTANTS
   Canon <- MCCanon3
@@ -9,8 +9,9 @@ CONSTANTS
   Batch = 1
   Confirmations = 1
   CountMerges = FALSE
-  MaxFaults = 1
+  MaxFaults = 2
   MaxCnt = 4
+  HCAhead = FALSE
   Concurrent = FALSE
   MaxLag = 0
 CONSTRAINT StateConstraint
